@@ -108,11 +108,22 @@ impl GraphBlock {
                 .map(|line| inlines_to_markdown(line, options))
                 .collect::<Vec<String>>()
                 .join("\n"),
-            GraphBlock::CodeBlock(lang, text) => lang
-                .clone()
-                .filter(|lang| !lang.trim().is_empty())
-                .map(|lang| format!("``` {}\n{}\n```\n", lang, text.trim_matches('\n')))
-                .unwrap_or_else(|| format!("```\n{}\n```\n", text.trim_matches('\n'))),
+            GraphBlock::CodeBlock(lang, text) => {
+                // the fence is longer than any run of backticks that starts a line of the code
+                let fence = "`".repeat(
+                    text.lines()
+                        .map(|line| line.trim_start().chars().take_while(|c| *c == '`').count() + 1)
+                        .max()
+                        .unwrap_or(0)
+                        .max(3),
+                );
+                lang.clone()
+                    .filter(|lang| !lang.trim().is_empty())
+                    .map(|lang| {
+                        format!("{} {}\n{}\n{}\n", fence, lang, text.trim_matches('\n'), fence)
+                    })
+                    .unwrap_or_else(|| format!("{}\n{}\n{}\n", fence, text.trim_matches('\n'), fence))
+            }
             GraphBlock::RawBlock(_, text) => text.clone(),
             GraphBlock::BlockQuote(blocks) => {
                 blocks_to_markdown_sparce(blocks, options)
